@@ -89,10 +89,10 @@ func registerExecModel(e *Engine) {
 		st.heap[cell] = smt.False
 		return one(st, nil)
 	})
-	e.reg(z+"ExecScenario", func(c *CallCtx, st *State, args []Value) []Outcome {
+	e.reg(z+"ExecScenarioStderr", func(c *CallCtx, st *State, args []Value) []Outcome {
 		p := c.E.pathArg(args[0], "ExecScenario")
-		cell := c.E.namedCell(st, "scenario:"+p, func() Value { return Tuple{smt.IntC(0), Str{}} })
-		st.heap[cell] = Tuple{args[1], args[2]}
+		cell := c.E.namedCell(st, "scenario:"+p, func() Value { return Tuple{smt.IntC(0), Str{}, Str{}} })
+		st.heap[cell] = Tuple{args[1], args[2], args[3]}
 		// the prepared command is root-owned, mode 0755 (0644 for the cannot-start scenario)
 		sc := args[1].(*smt.Term)
 		mode := smt.Ite(smt.Eq(sc, smt.IntC(2)), smt.BVC(0o644, 32), smt.BVC(0o755, 32))
@@ -207,9 +207,10 @@ func registerExecModel(e *Engine) {
 		exe := st.heap[en.namedCell(st, "exec.path", func() Value { return Str{} })].(Str).S
 		ec := en.namedCell(st, "executed:"+exe, func() Value { return smt.False })
 		st.heap[ec] = smt.True
-		sc := st.heap[en.namedCell(st, "scenario:"+exe, func() Value { return Tuple{smt.IntC(0), Str{S: "42"}} })].(Tuple)
+		sc := st.heap[en.namedCell(st, "scenario:"+exe, func() Value { return Tuple{smt.IntC(0), Str{S: "42"}, Str{}} })].(Tuple)
 		kind := sc[0].(*smt.Term)
 		text, _ := strArg(sc[1])
+		stderrText, _ := strArg(sc[2])
 		conds := make([]*smt.Term, 5)
 		rest := smt.True
 		for i := 0; i < 4; i++ {
@@ -235,8 +236,12 @@ func registerExecModel(e *Engine) {
 		if s := sts[0]; s != nil { // success
 			outs = append(outs, Outcome{St: s, Ret: Tuple{bytesOf(s, text), nilErr}})
 		}
-		if s := sts[1]; s != nil { // non-zero exit: *exec.ExitError, output still returned
-			outs = append(outs, Outcome{St: s, Ret: Tuple{bytesOf(s, text), errOf(s, "os/exec", "ExitError")}})
+		if s := sts[1]; s != nil { // non-zero exit: *exec.ExitError carrying the captured stderr, output still returned
+			ee := errOf(s, "os/exec", "ExitError").(Iface)
+			if stderrText != "" {
+				s.Store(ee.V.(Ptr).child(fieldIndex(en.typeOf("os/exec", "ExitError"), "Stderr")), bytesOf(s, stderrText))
+			}
+			outs = append(outs, Outcome{St: s, Ret: Tuple{bytesOf(s, text), ee}})
 		}
 		if s := sts[2]; s != nil { // cannot start (permission denied): *fs.PathError
 			outs = append(outs, Outcome{St: s, Ret: Tuple{Slice{}, errOf(s, "io/fs", "PathError")}})
